@@ -859,7 +859,7 @@ def print0_pipe(w, repo):
     res = []
     names = [" ", "  x ", "-n", "--", "a\nb", "q'1", 'q"2', "b\\s", "{}", "$(id)", "*", "?[a]", "\t", ";", "a b c", "é中", ".h"]
     with Sandbox() as d:
-        for start in ("r", "./r/", "-r", "r x"):
+        for start in ("r", "./r/", "-r", "r x", " ", "\n\t"):
             root = os.path.join(d, start.rstrip("/")) if not start.startswith("./") else os.path.join(d, "r")
             if not os.path.isdir(root):
                 os.makedirs(root)
@@ -871,7 +871,7 @@ def print0_pipe(w, repo):
         out_path = os.path.join(d, "argv.bin")
         open(rec, "w").write('#!/bin/sh\nfor a in "$@"; do printf "%s\\0" "$a" >> "' + out_path + '"; done\n')
         os.chmod(rec, 0o755)
-        for start in ("r", "./r/", "-r", "r x"):
+        for start in ("r", "./r/", "-r", "r x", " ", "\n\t"):
             pre = ["--"] if start.startswith("-") else []
             base = start if not start.startswith("-") else "./" + start
             # expected: the starting point as given + '/'-joined names
@@ -935,3 +935,38 @@ def printf_paths(w, repo):
     if dev:
         return True, "; ".join(dev[:3])
     return None, "path directives behave like the reference for the spellings tried"
+
+
+def walk_depth(w, repo):
+    """exact: the model's tree on disk (dangling and looping links, an unreadable directory); every (mindepth, maxdepth) pair,
+    -depth, -P/-H/-L; the reference is computed from the tree"""
+    if not build(repo):
+        return None, "build failed"
+    if os.geteuid() == 0:
+        unread = False            # root can read everything: the unreadable directory is an ordinary empty one
+    else:
+        unread = True
+    dev = []
+    with Sandbox() as d:
+        os.makedirs(os.path.join(d, "r", "d", "g"))
+        for f in ("r/a", "r/d/f", "r/d/g/h", "r/z"):
+            open(os.path.join(d, f), "w").close()
+        os.symlink("..", os.path.join(d, "r", "d", "k"))
+        os.symlink("missing", os.path.join(d, "r", "d", "m"))
+        os.symlink("missing", os.path.join(d, "r", "l"))
+        os.makedirs(os.path.join(d, "r", "x"))
+        os.chmod(os.path.join(d, "r", "x"), 0 if unread else 0o755)
+        depth = {"r": 0, "r/a": 1, "r/d": 1, "r/d/f": 2, "r/d/g": 2, "r/d/g/h": 3, "r/d/k": 2, "r/d/m": 2, "r/l": 1, "r/x": 1, "r/z": 1}
+        for fl in ("-P", "-H", "-L"):
+            for mn in range(0, 5):
+                for mx in range(0, 5):
+                    for df in (False, True):
+                        rc, out, err = run([find_bin(repo), fl, "r", "-mindepth", str(mn), "-maxdepth", str(mx)] + (["-depth"] if df else []), cwd=d)
+                        got = sorted(out.decode().split("\n")[:-1])
+                        want = sorted(p for p, dd in depth.items() if mn <= dd <= mx and not (fl == "-L" and p == "r/d/k"))
+                        if got != want:
+                            dev.append("find %s r -mindepth %d -maxdepth %d%s: evaluated %r, expected %r" % (fl, mn, mx, " -depth" if df else "", got, want))
+        os.chmod(os.path.join(d, "r", "x"), 0o755)
+    if dev:
+        return True, "; ".join(dev[:2]) + (" (+%d more)" % (len(dev) - 2) if len(dev) > 2 else "")
+    return None, "150 depth-range configurations behave like the reference natively"
